@@ -43,3 +43,11 @@ Theorem C02_run_canary_gated :
   (su_idx u' = su_idx u /\ su_state u' = su_state u) \/ gated_sub sp u w (synced_br u br) u' = true.
 Proof. exact run_canary_gated. Qed.
 Print Assumptions C02_run_canary_gated.
+
+(* blue-green: the upgrade gate *)
+From RV Require Model.RolloutBG Proofs.RolloutBG.
+Theorem C02_bluegreen_upgrade_is_gated : forall sp u w br u' br' rq,
+  RolloutBG.bg_upgrade sp u w br = RolloutSM.COut u' br' rq -> RolloutSM.su_state u' <> RolloutSM.su_state u ->
+  RolloutSM.su_state u' = RolloutSM.StTraffic /\ Corr.RolloutSM.br_ready_for sp u w br = true.
+Proof. exact Proofs.RolloutBG.bg_upgrade_gated. Qed.
+Print Assumptions C02_bluegreen_upgrade_is_gated.
